@@ -1,0 +1,16 @@
+//go:build !verif
+
+package json
+
+// No-op versions of the protocol-event hooks (see verif_hook_on.go). Without the `verif` build tag
+// these compile to nothing.
+
+func verifJSONStart(outChan chan<- []jobOutRecord, tail bool) int { return 0 }
+
+func verifJSONEvent(id int, kind string, n int) {}
+
+func verifJSONWorkerID() int { return 0 }
+
+func verifJSONWorkerEvent(wid int, outChan chan<- []jobOutRecord, kind string, n int) {}
+
+func verifJSONWorkerDelay(wid int, firstLine int) {}
